@@ -668,6 +668,8 @@ class Subscription(BaseSubscription):
 
 
 class QueryGarbageCollector(BaseGarbageCollector):
+    # expiration values are text: only well-formed (all digits) values are
+    # compared, and they are compared as numbers
     query = """
         DELETE FROM events WHERE events.id IN
         (
@@ -676,12 +678,25 @@ class QueryGarbageCollector(BaseGarbageCollector):
             WHERE 
                 (kind >= 20000 and kind < 30000)
             OR
-                (tags.name = 'expiration' AND tags.value < '%NOW%')
+                (tags.name = 'expiration' AND %IS_EXPIRED%)
         )
+    """
+    sqlite_is_expired = """
+        tags.value != '' AND tags.value NOT GLOB '*[^0-9]*'
+        AND CAST(tags.value AS INTEGER) < %NOW%
+    """
+    postgres_is_expired = """
+        (CASE WHEN tags.value ~ '^[0-9]{1,18}$'
+              THEN CAST(tags.value AS BIGINT) < %NOW% ELSE false END)
     """
 
     async def collect(self, conn):
+        if getattr(self.storage, "is_postgres", False):
+            is_expired = self.postgres_is_expired
+        else:
+            is_expired = self.sqlite_is_expired
+        query = self.query.replace("%IS_EXPIRED%", is_expired)
         result = await conn.execute(
-            sa.text(self.query.replace("%NOW%", str(int(time()))))
+            sa.text(query.replace("%NOW%", str(int(time()))))
         )
         return max(0, result.rowcount)
